@@ -1,6 +1,6 @@
 (* C15 - Labels are exported or local exactly as written or as documented by default. *)
 From Coq Require Import List ZArith Bool.
-From Pory Require Import Lexer Ast Emitter EmitProps.
+From Pory Require Import Lexer Ast Emitter EmitProps TopProps.
 Import ListNotations.
 
 (* in the code of a script (statement or inline map script) the script's own label carries the given scope, every label
@@ -12,3 +12,16 @@ Theorem script_label_scopes :
       (exists c, In c fs /\ In (n, g) (user_labels (cstmts c))).
 Proof. exact render_chunks_label_scopes. Qed.
 Print Assumptions script_label_scopes.
+
+(* an exported label (::) in the code of a script is the script's own name, declared global, or a label the author marked (global) *)
+Theorem exported_labels_of_a_script :
+  forall mp tl name glob fs order is, render_chunks mp tl name glob fs order = Ok is ->
+    forall n, In n (exported is) -> (n = name /\ glob = true) \/ exists c, In c fs /\ In (n, true) (user_labels (cstmts c)).
+Proof. exact TopProps.exported_script. Qed.
+Print Assumptions exported_labels_of_a_script.
+
+(* a text block exports its label iff the text is global (hoisted texts are created local, see C06); movement steps, mart
+   items and raw lines never define exported labels *)
+Theorem exported_labels_of_a_text : forall mp x, exported (emit_text mp x) = glob_name (xname x) (xglob x).
+Proof. exact TopProps.exported_text. Qed.
+Print Assumptions exported_labels_of_a_text.
